@@ -75,8 +75,8 @@ def run(tier):
             jobs.append({"cfg": {}, "steps": steps})
             meta.append((vi, len(steps0)))
     res = vp.run_jobs(jobs, tag="c04", timeout=6000)
-    # I->S on a fixed fraction (1 in 14 / 16) of the jobs (deterministic): block / super frames of the real executions against TeraVM
-    vp.traced([j for i, j in enumerate(jobs) if i % (14 if tier == "quick" else 16) == 0], C, "c04-trace", timeout=3000)
+    # I->S on a fixed fraction (1 in 24 / 16) of the jobs (deterministic): block / super frames of the real executions against TeraVM
+    vp.traced([j for i, j in enumerate(jobs) if i % (24 if tier == "quick" else 16) == 0], C, "c04-trace", timeout=3000)
     for (vi, nadd), rr, job in zip(meta, res, jobs):
         v = vecs[vi]
         C.count()
